@@ -28,7 +28,7 @@ def plan(ctx):
                    Tocks=[0, 1, 2, 3], MaxSteps=5, Limit=6, Rets=["T", "F", "N"], Faults=["x", "k"], EnterOuts=["ok", "x", "r"],
                    MaxFaults=1, MaxOps=3, ext={"R": [["x"], ["x", "x"], ["a", "x", "y"]], "G": [["z"], ["b", "z"]]},
                    rem={"R": [["a"], ["d", "a"], ["G"], ["a", "a"], ["x"], ["K"]], "G": [["b"], ["H", "b"]], "H": [["c"], ["e", "c"]]})
-    sim = [("big", big, 1200 if q else 30000)]
+    sim = [("big", big, 1200 if q else 90000)]
     if not q:
         mc.append(("deep-all", sched.mk(sched.DEEP, extra=["x"], Tocks=[0, 2], MaxSteps=3, Limit=3, ext={"G": [["x"]]},
                                         rem={"G": [["b"], ["H"]], "H": [["c"]]}, **faults, **ops)))
